@@ -1076,6 +1076,35 @@ pub fn scale(out_dir: &str, thorough: bool, seed: u64) -> i32 {
             }
         }
     }
+    // ---- long static texts (C10 at scale): borrowed, cloned, shortened without a copy; the first write moves the handle
+    for &len in &[17usize, 100, 4095, 4096, 4097, 100_000, 1 << 20] {
+        let pat = "st\u{e9}";
+        let full: String = pat.chars().cycle().take(len).collect::<String>();
+        let end = full.char_indices().map(|(i, _)| i).take_while(|&i| i <= len).last().unwrap_or(0);
+        let leaked: &'static str = Box::leak(full[..end].to_string().into_boxed_str());
+        let base = leaked.as_ptr();
+        let before = shim::begin_call(&[]);
+        crate::gate::take_extra();
+        let mut s = crate::gate::mx(|| LeanString::from_static_str(leaked));
+        let ctor = s.as_ptr() == base && !s.is_heap_allocated() && s.capacity() == leaked.len();
+        let c = crate::gate::mx(|| s.clone());
+        let cloned = c.as_ptr() == base && c == leaked;
+        let cut = leaked.char_indices().map(|(i, _)| i).take_while(|&i| i <= leaked.len() / 2).last().unwrap();
+        crate::gate::mx(|| s.truncate(cut));
+        let truncated = s.as_ptr() == base && s.as_str() == &leaked[..cut] && s.capacity() == cut;
+        let popped_ch = crate::gate::mx(|| s.pop());
+        let popped = s.as_ptr() == base && popped_ch == leaked[..cut].chars().next_back();
+        let mut t = c.clone();
+        crate::gate::mx(|| t.clear());
+        let cleared = t.is_empty() && !t.is_heap_allocated();
+        let st0 = shim::end_call(before);
+        let quiet = st0.d_a + st0.d_r + crate::gate::take_extra() == 0;
+        let expect = format!("{}!", s.as_str());
+        s.push('!');
+        let moved = s.as_ptr() != base && s.as_str() == expect && c == leaked;
+        let pristine = leaked.chars().eq(pat.chars().cycle().take(leaked.chars().count()));
+        recs.push(json!({"k":"bigstatic","len":leaked.len(),"ctor":ctor,"cloned":cloned,"truncated":truncated,"popped":popped,"cleared":cleared,"quiet":quiet,"moved":moved,"pristine":pristine}));
+    }
     // ---- unsatisfiable sizes on long targets (C06 at scale): a page or more of text, every kind of owner
     let sizes_for = |len: usize| -> Vec<(String, usize)> {
         let mut v = vec![];
